@@ -1022,7 +1022,9 @@ def check_user_call_shape(ctx, R):
         extra = [self_field(t) for n in own_nodes(init.node) if isinstance(n, ast.Assign) and isinstance(n.value, ast.Name)
                  and n.value.id == va for t in n.targets if self_field(t)]
         if not extra:
-            continue
+            # (stored by a helper / a private base: the field the update reads as `*self.<f>` next to the element)
+            extra = sorted({self_field(y.value) for n in own_nodes(up.node) for y in ast.walk(n)
+                            if isinstance(y, ast.Starred) and self_field(y.value)}) or ['args']
         xname = [p_ for p_ in up.params() if p_ != 'self'][0]
         exp = [w.replace('EXTRA', 'self.' + extra[0]).replace('X', xname) for w in want]
         try:
